@@ -47,6 +47,7 @@ type FnReport struct {
 	Reason string `json:"reason,omitempty"`
 	Hash   string `json:"hash"`
 	Loops  int    `json:"loops"`
+	Notes  []string `json:"notes,omitempty"`
 }
 
 // extern: Go objects of packages that are not translated, mapped to hand-written Lean terms
@@ -233,6 +234,13 @@ func (t *translator) leanType(ty types.Type) (string, error) {
 		}
 		return "", fmt.Errorf("basic type %s", x.Name())
 	case *types.Pointer:
+		if _, ok := x.Elem().Underlying().(*types.Basic); ok {
+			e, err := t.leanType(x.Elem())
+			if err != nil {
+				return "", err
+			}
+			return "(Option " + e + ")", nil
+		}
 		return t.leanType(x.Elem())
 	case *types.Slice:
 		if b, ok := x.Elem().(*types.Basic); ok && b.Kind() == types.Uint8 {
@@ -296,6 +304,9 @@ func (t *translator) zero(ty types.Type) (string, error) {
 	case *types.Slice:
 		return "[]", nil
 	case *types.Pointer:
+		if _, ok := x.Elem().Underlying().(*types.Basic); ok {
+			return "none", nil
+		}
 		return t.zero(x.Elem())
 	case *types.Struct, *types.Interface:
 		lt, err := t.leanType(ty)
@@ -308,7 +319,10 @@ func (t *translator) zero(ty types.Type) (string, error) {
 		if n, ok := ty.(*types.Named); ok && n.Obj().Pkg() == nil { // error
 			return "false", nil
 		}
-		return "(default : " + lt + ")", nil
+		if _, ok := ty.Underlying().(*types.Interface); ok {
+			return "(" + lt + ".nil_)", nil
+		}
+		return "({} : " + lt + ")", nil
 	}
 	return "", fmt.Errorf("zero value of %s", ty.String())
 }
